@@ -1,3 +1,83 @@
 package main
 
+import (
+	"flag"
+	"os"
+	"path/filepath"
+	"strings"
+
+	"google.golang.org/protobuf/proto"
+	"google.golang.org/protobuf/reflect/protodesc"
+	"google.golang.org/protobuf/reflect/protoregistry"
+	"google.golang.org/protobuf/types/descriptorpb"
+	"google.golang.org/protobuf/types/pluginpb"
+
+	_ "github.com/cosmos/cosmos-proto/internal/testprotos/test3"
+	_ "github.com/cosmos/cosmos-proto/testpb"
+)
+
 func cmdPlugin(args []string) { die("not implemented") }
+
+// checkedIn lists the proto files behind the checked-in *.pulsar.go files.
+var checkedIn = map[string][]string{
+	"testpb":                     {"1.proto", "2.proto", "3.proto"},
+	"internal/testprotos/test3": {"internal/testprotos/test3/test.proto", "internal/testprotos/test3/test_import.proto", "internal/testprotos/test3/test_nesting.proto"},
+}
+
+// registryRequest builds a request for files already linked into this binary.
+func registryRequest(paths []string, param string) *pluginpb.CodeGeneratorRequest {
+	var ordered []*descriptorpb.FileDescriptorProto
+	seen := map[string]bool{}
+	var visit func(p string)
+	visit = func(p string) {
+		if seen[p] {
+			return
+		}
+		seen[p] = true
+		fd, err := protoregistry.GlobalFiles.FindFileByPath(p)
+		if err != nil {
+			die("registry: %s: %v", p, err)
+		}
+		fp := protodesc.ToFileDescriptorProto(fd)
+		for _, d := range fp.Dependency {
+			visit(d)
+		}
+		ordered = append(ordered, fp)
+	}
+	for _, p := range paths {
+		visit(p)
+	}
+	req := &pluginpb.CodeGeneratorRequest{FileToGenerate: paths, ProtoFile: ordered}
+	if param != "" {
+		req.Parameter = proto.String(param)
+	}
+	return req
+}
+
+// cmdRegen regenerates the checked-in packages (without source comments, which are not
+// available from the linked descriptors) into --out, for diffing two plugin builds.
+func cmdRegen(args []string) {
+	fs := flag.NewFlagSet("regen", flag.ExitOnError)
+	plugin := fs.String("plugin", "", "plugin binary")
+	out := fs.String("out", "", "output dir")
+	fs.Parse(args)
+	for dir, files := range checkedIn {
+		req := registryRequest(files, "paths=source_relative")
+		resp, stderr, err := RunPlugin(*plugin, req, nil)
+		if err != nil {
+			die("regen %s: %v\n%s", dir, err, stderr)
+		}
+		if resp.Error != nil {
+			die("regen %s: %s", dir, resp.GetError())
+		}
+		for _, f := range resp.File {
+			name := f.GetName()
+			if !strings.Contains(name, "/") {
+				name = filepath.Join(dir, name)
+			}
+			p := filepath.Join(*out, name)
+			os.MkdirAll(filepath.Dir(p), 0o755)
+			os.WriteFile(p, []byte(f.GetContent()), 0o644)
+		}
+	}
+}
